@@ -22,6 +22,7 @@ PROGRAMS = [
     "async def f():\n    async for i in x:\n        yield i\n", "x = '\\ud800'\n", "def f():\n    return\n    def g(): pass\n",
     "lambda: (yield)\n", "try:\n    a\nexcept E as e:\n    b\nfinally:\n    c\n", "x = 'CodeData(not really)'\n",
     "import os.path as p\nfrom . import q\n", "x = 1; y = 2; z = x + y\nprint(z)\n",
+    "x = [1e999j, -1e999j, 1e999j * 0, 2 + 1e999j, 1e999, -(1e999 - 1e999)]\n", "def f(v=(1e999j, 2**70, b'\\xff', -0.0)):\n    return v in {1e999j, 0j}\n",
 ]
 
 
